@@ -40,6 +40,9 @@ func runC20(c *core.Ctx) {
 	h.listenerRefusesMismatch("C20.2 listener")
 	c.Clause("C20.3 storage exclusivity and write-once identity")
 	h.storageExclusivity("C20.3 storage")
+	// a refused SetIdentity (or a failed write of the identity) must be reported as such
+	h.deferredResultOverwrite("C20.3c deferred-result-overwrite")
+	h.setIdentityRefusal("C20.3d set-identity-refusal")
 	h.termVoteWriters("C20.3b value-writers")
 	h.openStorageLoads("C20.4 restart-loads", "identity")
 }
